@@ -33,6 +33,13 @@ def roundtrip_sym(p):
     dts = {"bin1_id": p.get("id_dtype", "int64"), "bin2_id": p.get("id_dtype", "int64"), "count": "int32", "w": "float64"}
     mk = lambda items, k: SArr(list(items), dts[k])  # noqa
     path = scratch_file("c01.cool")
+    if form != "iter" and K > 1:
+        # a table given in one piece may be in any row order: create_cooler sorts it
+        import itertools
+        perms = list(itertools.permutations(range(K)))
+        perm = perms[concretize(sym_int("perm", 0, len(perms) - 1))]
+        cover("table_unsorted", list(perm) != list(range(K)))
+        cols = {k: [col[j] for j in perm] for k, col in cols.items()}
     pixels = _input_form(form, cols, cuts, mk, sympd)
     sc.create_cooler(path, bins, pixels, columns=["count", "w"], dtypes={"w": "float64"}, ordered=True,
                      symmetric_upper=upper, metadata=META, assembly="asm1")
@@ -77,7 +84,12 @@ def roundtrip_real(p, inputs):
     dts = {"bin1_id": p.get("id_dtype", "int64"), "bin2_id": p.get("id_dtype", "int64"), "count": "int32", "w": "float64"}
     mk = lambda items, k: np.array(list(items), dtype=dts[k])  # noqa
     path = scratch_file("c01.cool")
-    cooler.create_cooler(path, bins, _input_form(form, cols, cuts, mk, pd), columns=["count", "w"], dtypes={"w": "float64"},
+    given = cols
+    if form != "iter" and K > 1:
+        import itertools
+        perm = list(itertools.permutations(range(K)))[inputs["perm"]]
+        given = {k: [col[j] for j in perm] for k, col in cols.items()}
+    cooler.create_cooler(path, bins, _input_form(form, given, cuts, mk, pd), columns=["count", "w"], dtypes={"w": "float64"},
                          ordered=True, symmetric_upper=upper, metadata=META, assembly="asm1")
     c = cooler.Cooler(path)
     tab = c.pixels()[:]
@@ -114,6 +126,7 @@ def _cases(tier):
     out.append(dict(layout=[2], kind="fixed", K=1, m=1, upper=True, form="iter", vhi=2**31 - 1))
     # bin ids handed over in the narrowest integer type that holds them (12 bins in int8): any arithmetic on the id columns
     # inside create happens in that type
+    out.append(dict(layout=[2], kind="fixed", K=3, m=1, upper=False, form="df"))
     out.append(dict(layout=[12], kind="even", K=2, m=1, upper=True, form="df", id_dtype="int8"))
     out.append(dict(layout=[12], kind="even", K=2, m=1, upper=False, form="dict", id_dtype="int8"))
     return out
@@ -181,7 +194,7 @@ def loader_real(p, inputs):
 
 
 CHECKS = [
-    Check("roundtrip", _cases, roundtrip_sym, roundtrip_real, labels=("empty_chunk", "diagonal", "count_at_type_limit"),
+    Check("roundtrip", _cases, roundtrip_sym, roundtrip_real, labels=("empty_chunk", "diagonal", "count_at_type_limit", "table_unsorted"),
           doc="create_cooler(ordered) -> Cooler.pixels/matrix/info on symbolic sorted records, every chunking, both modes",
           bounds=dict(quick="<=2 chromosomes, n<=3 bins, K<=3 records, m<=2 chunks; forms iterable/DataFrame/dict",
                       thorough="<=3 chromosomes, n<=4, K<=4, m<=3"),
